@@ -133,7 +133,7 @@ def build_recording(tier):
     cases = os.path.join(d, "cases.txt")
     open(cases, "w").close()
     plan = [("Pipeline_c04.cfg", None, 60 if thorough else 6), ("Pipeline_c01sim.cfg", 300 if thorough else 12, None),
-            ("Pipeline_sim.cfg", 500 if thorough else 12, None), ("Pipeline_c06sim.cfg", 400 if thorough else 12, None)]
+            ("Pipeline_sim.cfg", 500 if thorough else 12, None), ("Pipeline_c06sim.cfg", 400 if thorough else 12, None), ("Pipeline_c09sim.cfg", 300 if thorough else 12, None)]
     for cfgname, sim, take in plan:
         out = os.path.join(sc, cfgname + ".rcases")
         r = c.tlc("PipelineMC", cfgname, workers=1, out_file=out, simulate=("num=%d" % sim) if sim else None, depth=80 if sim else None, seed_=seed + 17, timeout=3000)
@@ -207,7 +207,7 @@ def run(tier, prop):
     kinds = meta["kinds"]
     ev = {"C02": st["runs"], "C03": st["runs"], "C05": st["runs"], "C12": st["cmps"], "C09": st.get("C09", 0)}[prop]
     nt = {"C02": kinds.get("probe", 0) * 5 + kinds.get("auth", 0), "C03": (kinds.get("auth", 0) + kinds.get("auth-same-error", 0) + kinds.get("refused+invalid", 0)) * 5,
-          "C05": (kinds.get("token", 0) + kinds.get("absent", 0) + kinds.get("absent+decoy", 0)) * 5, "C12": kinds.get("token", 0) + kinds.get("absent", 0) + kinds.get("fail", 0) + kinds.get("refused+invalid", 0),
+          "C05": (kinds.get("token", 0) + kinds.get("absent", 0) + kinds.get("absent+decoy", 0)) * 5, "C12": kinds.get("token", 0) + kinds.get("absent", 0) + kinds.get("fail", 0) + kinds.get("refused+invalid", 0) + kinds.get("status201", 0) + kinds.get("status202+fail", 0) + kinds.get("status503+fail", 0),
           "C09": st.get("C09nt", 0)}[prop]
     if ev == 0:
         raise c.Trouble("property %s was not exercised by the recording" % prop)
@@ -215,7 +215,7 @@ def run(tier, prop):
     for line in open(os.path.join(d, "records.ndjson")):
         r = json.loads(line)
         for q in (r.get("requests") or [])[:400]:
-            if len(sample) < 3 and q["kind"] in {"C02": ("probe", "auth"), "C03": ("auth", "auth-same-error", "refused+invalid"), "C05": ("token", "absent", "absent+decoy"), "C12": ("fail", "token"), "C09": ("auth",)}[prop]:
+            if len(sample) < 3 and q["kind"] in {"C02": ("probe", "auth"), "C03": ("auth", "auth-same-error", "refused+invalid"), "C05": ("token", "absent", "absent+decoy"), "C12": ("fail", "token", "status202+fail", "status201"), "C09": ("auth",)}[prop]:
                 sample.append({"case": r["id"], "kind": q["kind"], "verb": q["verb"], "url": q["url"], "script": q.get("script"), "tokens": q.get("toks")})
         if len(sample) >= 3:
             break
